@@ -333,8 +333,10 @@ impl Cfg {
 pub(super) enum Ev {
     /// `reps` measurements of source `src`; before each one the local clock advances by
     /// `dt` units and the monotonic (tokio) clock by `mono_ns`. Repetition k uses offset
-    /// `off + wob*((k%3)-1)` and delay `delay + dwob*(k%2)` (saturating). `defer`: the
-    /// message stays queued in the channel instead of being processed at once.
+    /// `off + wob*po(k)` and delay `delay + dwob*pd(k)` (saturating) where the jitter pattern
+    /// `pat` gives (po, pd): 0 -> ((k%3)-1, k%2); 1 monotone -> (k, k); 2 alternating ->
+    /// (-1,+1,-1,..) for both; 3 irregular -> [0,3,1,7,2,5,4,6][k%8] for both.
+    /// `defer`: the message stays queued in the channel instead of being processed at once.
     Meas {
         src: u8,
         off: i64,
@@ -348,6 +350,7 @@ pub(super) enum Ev {
         defer: bool,
         wob: i64,
         dwob: i64,
+        pat: u8,
     },
     /// the controller loop processes the oldest queued message
     Deliver,
@@ -355,6 +358,22 @@ pub(super) enum Ev {
     Tick,
     Usable { src: u8, on: bool },
     Remove { src: u8 },
+}
+
+/// jitter multipliers (offset, delay) of repetition `k` under pattern `pat`
+pub(super) fn jitter(pat: u8, k: u8) -> (i64, i64) {
+    match pat {
+        0 => ((k % 3) as i64 - 1, (k % 2) as i64),
+        1 => (k as i64, k as i64),
+        2 => {
+            let s = (k % 2) as i64 * 2 - 1;
+            (s, s)
+        }
+        _ => {
+            let s = [0i64, 3, 1, 7, 2, 5, 4, 6][(k % 8) as usize];
+            (s, s)
+        }
+    }
 }
 
 impl Ev {
@@ -373,54 +392,61 @@ impl Ev {
             defer: false,
             wob: 0,
             dwob: 0,
+            pat: 0,
         }
     }
     pub(super) fn burst(src: u8, off: i64, delay: i64, dt: i64, reps: u8, wob: i64, dwob: i64) -> Ev {
-        match Ev::meas(src, off, delay, dt) {
-            Ev::Meas { src, off, delay, dt, mono_ns, rdelay, rdisp, leap, defer, .. } => {
-                Ev::Meas { src, off, delay, dt, mono_ns, rdelay, rdisp, leap, reps, defer, wob, dwob }
-            }
-            e => e,
+        let mut e = Ev::meas(src, off, delay, dt);
+        if let Ev::Meas { reps: r, wob: w, dwob: d, .. } = &mut e {
+            *r = reps;
+            *w = wob;
+            *d = dwob;
         }
+        e
     }
-    pub(super) fn deferred(self) -> Ev {
-        match self {
-            Ev::Meas { src, off, delay, dt, mono_ns, rdelay, rdisp, leap, reps, wob, dwob, .. } => {
-                Ev::Meas { src, off, delay, dt, mono_ns, rdelay, rdisp, leap, reps, defer: true, wob, dwob }
-            }
-            e => e,
+    pub(super) fn with_pattern(mut self, p: u8) -> Ev {
+        if let Ev::Meas { pat, .. } = &mut self {
+            *pat = p;
         }
+        self
     }
-    pub(super) fn with_mono(self, ns: u64) -> Ev {
-        match self {
-            Ev::Meas { src, off, delay, dt, rdelay, rdisp, leap, reps, defer, wob, dwob, .. } => {
-                Ev::Meas { src, off, delay, dt, mono_ns: ns, rdelay, rdisp, leap, reps, defer, wob, dwob }
-            }
-            e => e,
+    pub(super) fn deferred(mut self) -> Ev {
+        if let Ev::Meas { defer, .. } = &mut self {
+            *defer = true;
         }
+        self
     }
-    pub(super) fn with_root(self, rd: i64, rdp: i64) -> Ev {
-        match self {
-            Ev::Meas { src, off, delay, dt, mono_ns, leap, reps, defer, wob, dwob, .. } => {
-                Ev::Meas { src, off, delay, dt, mono_ns, rdelay: rd, rdisp: rdp, leap, reps, defer, wob, dwob }
-            }
-            e => e,
+    pub(super) fn with_mono(mut self, ns: u64) -> Ev {
+        if let Ev::Meas { mono_ns, .. } = &mut self {
+            *mono_ns = ns;
         }
+        self
     }
-    pub(super) fn with_leap(self, l: u8) -> Ev {
-        match self {
-            Ev::Meas { src, off, delay, dt, mono_ns, rdelay, rdisp, reps, defer, wob, dwob, .. } => {
-                Ev::Meas { src, off, delay, dt, mono_ns, rdelay, rdisp, leap: l, reps, defer, wob, dwob }
-            }
-            e => e,
+    pub(super) fn with_root(mut self, rd: i64, rdp: i64) -> Ev {
+        if let Ev::Meas { rdelay, rdisp, .. } = &mut self {
+            *rdelay = rd;
+            *rdisp = rdp;
         }
+        self
+    }
+    pub(super) fn with_leap(mut self, l: u8) -> Ev {
+        if let Ev::Meas { leap, .. } = &mut self {
+            *leap = l;
+        }
+        self
     }
     pub(super) fn encode(&self) -> String {
         match self {
-            Ev::Meas { src, off, delay, dt, mono_ns, rdelay, rdisp, leap, reps, defer, wob, dwob } => format!(
-                "m{src}:{off}:{delay}:{dt}:{mono_ns}:{rdelay}:{rdisp}:{leap}:{reps}:{}:{wob}:{dwob}",
-                *defer as u8
-            ),
+            Ev::Meas { src, off, delay, dt, mono_ns, rdelay, rdisp, leap, reps, defer, wob, dwob, pat } => {
+                let mut s = format!(
+                    "m{src}:{off}:{delay}:{dt}:{mono_ns}:{rdelay}:{rdisp}:{leap}:{reps}:{}:{wob}:{dwob}",
+                    *defer as u8
+                );
+                if *pat != 0 {
+                    s.push_str(&format!(":{pat}"));
+                }
+                s
+            }
             Ev::Deliver => "d".to_string(),
             Ev::Tick => "t".to_string(),
             Ev::Usable { src, on } => format!("u{src}:{}", *on as u8),
@@ -439,7 +465,7 @@ impl Ev {
             }
             "m" => {
                 let p: Vec<&str> = rest.split(':').collect();
-                if p.len() != 12 {
+                if p.len() != 12 && p.len() != 13 {
                     return None;
                 }
                 Some(Ev::Meas {
@@ -455,6 +481,7 @@ impl Ev {
                     defer: p[9] == "1",
                     wob: p[10].parse().ok()?,
                     dwob: p[11].parse().ok()?,
+                    pat: if p.len() == 13 { p[12].parse().ok()? } else { 0 },
                 })
             }
             _ => None,
@@ -769,7 +796,7 @@ impl World {
             return tr;
         }
         match ev {
-            Ev::Meas { src, off, delay, dt, mono_ns, rdelay, rdisp, leap, reps, defer, wob, dwob } => {
+            Ev::Meas { src, off, delay, dt, mono_ns, rdelay, rdisp, leap, reps, defer, wob, dwob, pat } => {
                 let si = *src as usize;
                 if si >= self.slots.len() || self.slots[si].src.is_none() {
                     tr.enabled = false;
@@ -779,8 +806,9 @@ impl World {
                     tokio::time::advance(Duration::from_nanos(*mono_ns)).await;
                     self.clock.advance_local(*dt);
                     self.events_executed += 1;
-                    let off_k = off.saturating_add(wob.saturating_mul((k % 3) as i64 - 1));
-                    let delay_k = delay.saturating_add(dwob.saturating_mul((k % 2) as i64));
+                    let (po, pd) = jitter(*pat, k);
+                    let off_k = off.saturating_add(wob.saturating_mul(po));
+                    let delay_k = delay.saturating_add(dwob.saturating_mul(pd));
                     let localtime = NtpTimestamp::from_fixed_int(self.clock.local_now());
                     let id = self.slots[si].id;
                     let r = match self.slots[si].src.as_mut().unwrap() {
